@@ -11,7 +11,10 @@ type SiteTable struct {
 	Mode   string `json:"mode"`
 	Module string `json:"module"`
 	GoStmt int    `json:"go_stmts"`
-	Sites  []struct {
+	// MayBlock: the module under test uses synchronisation primitives, channels
+	// or goroutines; the scheduler then runs its blocked-task monitor.
+	MayBlock bool `json:"may_block"`
+	Sites    []struct {
 		ID   uint32 `json:"id"`
 		File string `json:"file"`
 		Line int    `json:"line"`
